@@ -85,7 +85,15 @@ type Def = Instrument<ExchangeId, Asset>;
 
 fn t0() -> DateTime<Utc> { DateTime::<Utc>::from_timestamp(1_700_000_000, 0).unwrap() }
 fn date(ts: i64) -> DateTime<Utc> { DateTime::<Utc>::from_timestamp(ts, 0).unwrap() }
-fn name(ex: ExchangeId, n: &str) -> String { format!("{}-{n}", ex.as_str()) }
+static PLAIN_NAMES: std::sync::atomic::AtomicBool = std::sync::atomic::AtomicBool::new(false);
+fn name(ex: ExchangeId, n: &str) -> String { if PLAIN_NAMES.load(std::sync::atomic::Ordering::Relaxed) { n.to_string() } else { format!("{}-{n}", ex.as_str()) } }
+/// the pool with user-chosen internal names that do not carry the exchange: the listings of one pair on two exchanges share their internal name
+fn plain_pool() -> Vec<Def> {
+    PLAIN_NAMES.store(true, std::sync::atomic::Ordering::Relaxed);
+    let p = pool();
+    PLAIN_NAMES.store(false, std::sync::atomic::Ordering::Relaxed);
+    p
+}
 fn spec(unit: OrderQuantityUnits<Asset>, salt: i64) -> Option<InstrumentSpec<Asset>> {
     Some(InstrumentSpec::new(
         InstrumentSpecPrice::new(Decimal::new(1, 2), Decimal::new(salt, 2)),
@@ -472,6 +480,20 @@ fn known_probe(st: &mut St, rt: &tokio::runtime::Runtime) {
         let input = &|| format!("[{what}] {}", describe(&defs));
         let Ok(ix) = catch_unwind(AssertUnwindSafe(|| IndexedInstruments::new(defs.iter().cloned()))) else { st.fail(L_SET, input, "IndexedInstruments::new panicked".into(), "indexed collection".into()); continue; };
         if k == 1 {
+            // whatever one thinks of the shared name: the two contracts are different definitions, so each gets exactly one index and the result
+            // does not depend on the order or on repetitions of the insertions (this much holds on the tree as found)
+            for (variant, order) in [vec![1usize, 0], vec![0, 1, 0], vec![1, 0, 1, 0], vec![0, 0, 1]].into_iter().enumerate() {
+                let seq: Vec<Def> = order.iter().map(|i| defs[*i].clone()).collect();
+                let vin = &|| format!("[{what}; inserted in the order {order:?}] {}", describe(&seq));
+                for how in [variant, variant + 1] {
+                    match catch_unwind(AssertUnwindSafe(|| build_with(&seq, how))) {
+                        Ok(got) if got == ix => {}
+                        Ok(got) => st.fail(if order.len() > 2 { L_DUP } else { L_ORDER }, vin, format!("instruments {:?}", got.instruments().iter().map(|k| format!("{}={}", k.key.index(), k.value.name_exchange)).collect::<Vec<_>>()),
+                                           format!("instruments {:?} (as for the two definitions inserted once each)", ix.instruments().iter().map(|k| format!("{}={}", k.key.index(), k.value.name_exchange)).collect::<Vec<_>>())),
+                        Err(_) => st.fail(L_SET, vin, "IndexedInstruments construction panicked".into(), "indexed collection".into()),
+                    }
+                }
+            }
             // the official config path: one label of its own
             let ins = ix.instruments();
             let clash = ins.len() == 2 && ins[0].value.name_internal == ins[1].value.name_internal && ins[0].value.exchange.value == ins[1].value.exchange.value;
@@ -509,6 +531,32 @@ pub fn run(seed: u64, thorough: bool) -> u64 {
             let mut c = code;
             let seq: Vec<usize> = (0..len).map(|_| { let i = c % p; c /= p; i }).collect();
             one(&mut st, &mut cn, &rt, &pool, &seq, code, thorough && len <= 3);
+        }
+    }
+    // 1b. internal names without the exchange (shared by listings on different exchanges; (exchange, name) stays unique): the INDEX itself - dense
+    // positions, look-ups by (exchange, name) and by index as mutual inverses, resolved references, independence of the insertion order - holds all
+    // the same. (The engine tables keyed by the internal name alone are not built from these collections.)
+    {
+        let plain = plain_pool();
+        for len in 1..=3usize {
+            for code in 0..p.pow(len as u32) {
+                let mut c = code;
+                let seq: Vec<usize> = (0..len).map(|_| { let i = c % p; c /= p; i }).collect();
+                let mask = seq.iter().fold(0u32, |m, i| m | 1 << i);
+                let defs: Vec<Def> = seq.iter().map(|i| plain[*i].clone()).collect();
+                let input = &|| format!("[internal names without the exchange] {}", describe(&defs));
+                st.n += 1;
+                let Ok(got) = catch_unwind(AssertUnwindSafe(|| build_with(&defs, code))) else { st.fail(L_SET, input, "IndexedInstruments construction panicked".into(), "indexed collection".into()); continue; };
+                check_structure(&mut st, &defs, &got, input);
+                let canon_defs: Vec<Def> = (0..p).filter(|i| mask >> i & 1 == 1).map(|i| plain[i].clone()).collect();
+                if let Ok(canon) = catch_unwind(AssertUnwindSafe(|| IndexedInstruments::new(canon_defs.iter().cloned()))) {
+                    if got != canon {
+                        let repeated = seq.len() != mask.count_ones() as usize;
+                        st.fail(if repeated { L_DUP } else { L_ORDER }, input, format!("instruments {:?}", got.instruments().iter().map(|k| format!("{}={}:{}", k.key.index(), k.value.exchange.value.as_str(), k.value.name_exchange)).collect::<Vec<_>>()),
+                                format!("instruments {:?} (as for the same definitions inserted once each in pool order)", canon.instruments().iter().map(|k| format!("{}={}:{}", k.key.index(), k.value.exchange.value.as_str(), k.value.name_exchange)).collect::<Vec<_>>()));
+                    }
+                }
+            }
         }
     }
     // 2. subsets of the pool, in pool order, reversed and rotated
